@@ -30,7 +30,7 @@ ASSUMPTIONS = [
 ]
 NOT_REACHED = ["recordings with more than 12000 samples in this check (C01 covers long windows)"]
 BUDGET = {"quick": dict(cases=400, seconds=60, shards=4),
-          "thorough": dict(cases=12000, seconds=600, shards=16)}
+          "thorough": dict(cases=100000, seconds=600, shards=16)}
 REQUIRED = ["mon:recordings-unchanged", "mon:repeatable", "mon:result-independent-of-later-mutation",
             "mon:second-method-unaffected"]
 
